@@ -313,6 +313,8 @@ class C07(core.Check):
         'the modulo operator is always surrounded by spaces (a glued % starts a binary literal)',
         'names never look like literals (b101, beefH)',
         'trailing-H hexadecimal uses an upper-case H',
+        "in operand position the character literal ';' and bracket characters are not used: the instruction-line grammar "
+        "cuts the statement there before the expression parser sees it (line grammar, not expression semantics)",
     )
     chunk = 400
     crosscheck_every = {'quick': 10, 'thorough': 10}
@@ -350,7 +352,7 @@ class C07(core.Check):
             if t.startswith("'") or t.startswith('"'):
                 t = '0 + ' + t     # a leading quote is the data directive's string syntax (C11), not an expression
                 it = dict(it, text=t)
-            as_operand = rng.random() < 0.4 and '[' not in t and ']' not in t and '{' not in t and '}' not in t
+            as_operand = rng.random() < 0.4 and not any(ch in t for ch in '[]{};')   # ';' ends an instruction statement (line grammar)
             lines.append(f'w64 {t}' if as_operand else f'.8byte {t}')
             it = dict(it, operand=as_operand)
             line_of.append(it)
